@@ -98,7 +98,8 @@ func dedupLoop(configArgs map[string]string, w *fsnotify.Watcher, completedChann
 		defer regenerateMutex.Unlock()
 
 		dirsToWatch := generateInWatchMode(configArgs)
-		if dirsToWatch != nil && len(dirsToWatch) > len(w.WatchList()) {
+		if dirsToWatch != nil {
+			// adding a directory that is already watched is a no-op
 			for _, dir := range dirsToWatch {
 				if err := w.Add(dir); err != nil {
 					completedChannel <- err
